@@ -3,6 +3,8 @@ package main
 
 import (
 	"bytes"
+	"crypto/ed25519"
+	crand "crypto/rand"
 	"encoding/binary"
 	"encoding/hex"
 	"fmt"
@@ -11,6 +13,7 @@ import (
 	"net"
 	"runtime"
 	"runtime/debug"
+	"strings"
 	"sync"
 	"sync/atomic"
 	"time"
@@ -120,6 +123,40 @@ func longStream(r *ev.Run) {
 			r.Violation(c, "memory-held-grows-with-the-number-of-frames", fmt.Sprintf("after 30 frames of 2 MiB on one connection (and a garbage collection) the live heap is %d MiB above where it started", grown>>20), map[string]any{"live_heap_growth_bytes": grown})
 			return
 		}
+		// the same connection goes on with requests the standard agent protocol answers: what may be written back is
+		// bounded per response, not per connection
+		_, priv, _ := ed25519.GenerateKey(crand.Reader)
+		if err := ag.Keyring.Add(agent.AddedKey{PrivateKey: priv, Comment: strings.Repeat("c", 1<<20)}); err != nil {
+			r.Inconclusive("the scripted agent refuses an identity with a long comment: " + err.Error())
+			return
+		}
+		for i := 0; i < 24; i++ {
+			type rep struct {
+				b   []byte
+				err error
+			}
+			done := make(chan rep, 1)
+			go func() {
+				if _, err := c1.Write(wire.Frame([]byte{11})); err != nil {
+					done <- rep{nil, err}
+					return
+				}
+				b, err := wire.ReadFrame(c1)
+				done <- rep{b, err}
+			}()
+			select {
+			case p := <-done:
+				if p.err != nil || len(p.b) < 1<<20 || p.b[0] != 12 {
+					r.Violation(c, "well-formed-request-not-answered:long-stream:listing", fmt.Sprintf("listing %d of 24 on one connection (each reply a little over 1 MiB): err=%v, %d octets", i, p.err, len(p.b)), nil)
+					return
+				}
+			case <-time.After(ev.OpTimeout()):
+				r.Violation(c, "serving-never-ends:long-stream:listing", fmt.Sprintf("listing %d of 24 was not answered", i), nil)
+				return
+			}
+			ag.ResetLog()
+		}
+		r.Count("listings of 1 MiB answered on the same connection after them", 24)
 		r.Count("frames of 2 MiB served on one connection with a bounded live heap", 40)
 		r.Extra("long_stream_live_heap_growth_bytes", grown)
 		r.Nontrivial("long-stream")
